@@ -103,7 +103,9 @@ type MapObj struct {
 
 type ChanObj struct {
 	q      []Val
+	cap    int
 	closed bool
+	O      *Obj
 }
 
 type mapIter struct {
